@@ -121,7 +121,9 @@ def run(ctx):
         kw['random_state'] = int(rng.integers(0, 1000))
         variant = int(rng.integers(0, 2))
         if name == 'RCA_Supervised':
-          kw.update(n_chunks=int(rng.integers(3, 6)), chunk_size=int(rng.integers(2, 4)))
+          cs = int(rng.integers(2, 4))
+          feasible = int(sum(np.sum(y == c) // cs for c in np.unique(y[y >= 0])))    # more is a documented ValueError (C07)
+          kw.update(n_chunks=max(1, min(int(rng.integers(3, 6)), feasible)), chunk_size=cs)
         elif name == 'SCML_Supervised':
           kw.update(k_genuine=int(rng.integers(1, 4)), k_impostor=int(rng.integers(1, 5)),
                     basis=['lda', 'triplet_diffs'][variant])
